@@ -406,6 +406,10 @@ type c16Tree struct {
 	Cfg []c16CfgSpec `json:"cfg,omitempty"`
 	// configMapGenerator / secretGenerator entries (names get a content-hash suffix): concurrent rounds only
 	Gens []c16Gen `json:"gens,omitempty"`
+	// a failure inside MakeCustomizedResMap that has nothing to do with the schema:
+	//   "missing-file" = a last `resources:` entry naming a file that does not exist;
+	//   "bad-patch"    = a last strategic-merge patch whose target (a Deployment) does not exist
+	Fail string `json:"fail,omitempty"`
 }
 
 type c16Gen struct {
@@ -551,6 +555,9 @@ func (t *c16Tree) fs(schemas []c16Schema) filesys.FileSystem {
 			entries = append(entries, "base")
 		}
 	}
+	if t.Fail == "missing-file" {
+		entries = append(entries, "missing.yaml")
+	}
 	k.WriteString("resources:\n")
 	for _, e := range entries {
 		k.WriteString("- " + e + "\n")
@@ -613,10 +620,14 @@ func (t *c16Tree) fs(schemas []c16Schema) filesys.FileSystem {
 			}
 		}
 	}
-	if len(t.Patches) > 0 {
+	if len(t.Patches) > 0 || t.Fail == "bad-patch" {
 		k.WriteString("patches:\n")
 		for i := range t.Patches {
 			fmt.Fprintf(&k, "- path: p%d.yaml\n", i)
+		}
+		if t.Fail == "bad-patch" {
+			k.WriteString("- path: pbad.yaml\n")
+			_ = fs.WriteFile("/t/pbad.yaml", []byte(c16PatchYaml(c16Res{Kind: "Deployment", Name: "no-such-resource"})))
 		}
 	}
 	_ = fs.WriteFile("/t/kustomization.yaml", []byte(k.String()))
@@ -700,10 +711,17 @@ func (t *c16Tree) queries() []c16Query {
 		file()
 		base()
 	}
+	if t.Fail == "missing-file" {
+		return append(qs, c16Query{K: "fail"})
+	}
 	for _, p := range t.Patches {
 		r, _ := t.find(p)
 		qs = append(qs, c16Query{K: "ns", Tm: c16TmIndex(r.Kind)})
 		qs = append(qs, c16Query{K: "schema", Tm: c16TmIndex(r.Kind), Reveal: "mk:" + r.Name})
+	}
+	if t.Fail == "bad-patch" {
+		qs = append(qs, c16Query{K: "ns", Tm: c16TmIndex("Deployment")})
+		return append(qs, c16Query{K: "fail"})
 	}
 	if t.Namespace {
 		for _, r := range t.allRes() {
@@ -1185,6 +1203,9 @@ func genTree16(g *Rng, nSchemas int, defaultOnly bool) *c16Tree {
 			t.Patches = append(t.Patches, r.Name)
 		}
 	}
+	if !defaultOnly && g.Chance(12) {
+		t.Fail = g.Pick([]string{"missing-file", "bad-patch"})
+	}
 	return t
 }
 
@@ -1305,6 +1326,8 @@ func c16BuildTerm(t *c16Tree, schemas []c16Schema) string {
 			qs = append(qs, "QSchema "+c16Tms[q.Tm].coq())
 		case "sub":
 			qs = append(qs, fmt.Sprintf("QSub %s %s", coqOptStr(q.Ver), c16SchemaOpt(schemas, q.Schema)))
+		case "fail":
+			qs = append(qs, "QFail")
 		}
 	}
 	return fmt.Sprintf("(mkBuild %s %s [%s])", coqOptStr(t.Ver), c16SchemaOpt(schemas, t.Schema), strings.Join(qs, "; "))
@@ -1490,6 +1513,9 @@ func runC16(r *Run, rng *Rng, tier string) error {
 					r.Count("build_base_field", c16FieldKind(op.Tree.BaseVer, op.Tree.BaseSchema))
 				}
 				r.Count("build_patches", fmt.Sprint(len(op.Tree.Patches)))
+				if op.Tree.Fail != "" {
+					r.Count("build_fail", op.Tree.Fail)
+				}
 			}
 		}
 		for _, e := range c16Expect(seq, res) {
